@@ -301,7 +301,7 @@ Ltac step_inv H :=
   end;
   repeat (first [break_hyp H | break_top H]; try discriminate H);
   try (injection H as H; try subst);
-  repeat match goal with
+  try match goal with
   | Hk : e_k _ = KLbNew _ ?x |- _ => is_var x; let ts := fresh "ts" in rename x into ts
   | Hk : e_k _ = KSnapCollect ?x |- _ => is_var x; let ss := fresh "ss" in rename x into ss
   end;
@@ -312,8 +312,8 @@ Ltac proj :=
        upd_targets upd_lbs upd_svcs upd_installed upd_reqs set_phase set_tstate set_drains] in *.
 
 
-Lemma step_clock : forall s e s', step s e = Some s' -> (clock s <= clock s')%N /\ clock s' = e_t e.
+Lemma step_clock : forall s e s', step s e = Some s' -> s' = s.
 Proof.
-  intros s e s' H. Time step_inv H.
-  Time all: proj. Time all: rewrite ?clock_taint. Time all: proj. Time all: lia.
-Qed.
+  intros s e s' H. step_inv H. 
+  all: match goal with Hk : e_k _ = ?k |- ?g => idtac "CASE" k "==>" g end.
+Abort.
